@@ -504,6 +504,16 @@ pub fn run(ctx: &Ctx) {
     run_rt_leg(ctx, 0, if quick { 5 } else { 6 }, "mapq-runtime");
 }
 
+/// Runtime-side relief queue only (used by C07: what a slow downlink connection drops).
+pub fn run_runtime(ctx: &Ctx) {
+    if vcommon::sched::is_worker() {
+        return;
+    }
+    let quick = ctx.quick();
+    run_rt_leg(ctx, usize::MAX - 2, if quick { 5 } else { 7 }, "mapq-runtime-wrap");
+    run_rt_leg(ctx, 0, if quick { 5 } else { 6 }, "mapq-runtime");
+}
+
 /// Sync-consistency variant used by C03 (both link rules).
 pub fn run_sync(ctx: &Ctx) {
     if vcommon::sched::is_worker() {
